@@ -230,6 +230,9 @@ def run_check(pid, tier, seed, replay=None):
         else:
             e['PYTHONHASHSEED'] = '0'
         e['PYTHONDONTWRITEBYTECODE'] = '1'
+        shard_env = getattr(mod, 'SHARD_ENV', None)
+        if shard_env is not None:
+            e.update(shard_env(sh, seed))       # a function of (shard, seed): a replay gets the same environment
         e['PYTHONPATH'] = VERIF + os.pathsep + e.get('PYTHONPATH', '')
         p = subprocess.Popen(
             [sys.executable, '-m', 'vf.shard', pid, tier, str(seed), str(sh),
